@@ -43,8 +43,8 @@ def enc_table(body, what):
 
 # ---------------------------------------------------------------- per-type presentation schemas
 
-W_U8, W_U16, W_U32, W_NAME, W_CSTR, W_B16, W_B64, W_WORD, W_CSTRS, W_TYPES, W_SALT, W_B32, W_RTYPE, W_QUOTED, W_IP4 = 1, 2, 3, 4, 5, 6, 7, 8, 9, 10, 11, 12, 13, 14, 15
-R_U8, R_U16, R_U32, R_NAME, R_CSTR, R_B16REST, R_B64REST, R_OCTETS, R_CSTRS, R_TIMESTAMP, R_TYPES, R_SALT, R_ENUM8, R_RTYPE, R_B32TOKEN, R_IP4 = 1, 2, 3, 4, 5, 6, 7, 8, 9, 10, 11, 12, 13, 14, 15, 16
+W_U8, W_U16, W_U32, W_NAME, W_CSTR, W_B16, W_B64, W_WORD, W_CSTRS, W_TYPES, W_SALT, W_B32, W_RTYPE, W_QUOTED, W_IP4, W_GATEWAY, W_DOT = 1, 2, 3, 4, 5, 6, 7, 8, 9, 10, 11, 12, 13, 14, 15, 16, 17
+R_U8, R_U16, R_U32, R_NAME, R_CSTR, R_B16REST, R_B64REST, R_OCTETS, R_CSTRS, R_TIMESTAMP, R_TYPES, R_SALT, R_ENUM8, R_RTYPE, R_B32TOKEN, R_IP4, R_GATEWAY, R_DOT = 1, 2, 3, 4, 5, 6, 7, 8, 9, 10, 11, 12, 13, 14, 15, 16, 17, 18
 
 REGULAR = [  # struct, file
     ("A", "src/rdata/rfc1035/a.rs"), ("Aaaa", "src/rdata/aaaa.rs"), ("Soa", "src/rdata/rfc1035/soa.rs"),
@@ -131,9 +131,12 @@ def type_schema(name, path, enums, codes):
             arg = re.sub(r"\s+", "", raw)
             what = m.group(1)
             if what == "write_comment":
-                if not wf or wf[-1][1] != 0:
-                    raise GenError("%s: comment without a token / second comment" % name)
                 lit = re.fullmatch(r'"([^"\\]*)"', raw)
+                if wf and wf[-1][1] == 2 and lit:
+                    wf[-1][1], wf[-1][2] = 3, lit.group(1)      # a dynamic comment, then a static one
+                    continue
+                if not wf or wf[-1][1] != 0:
+                    raise GenError("%s: comment without a token / unsupported second comment" % name)
                 wf[-1][1], wf[-1][2] = (1, lit.group(1)) if lit else (2, "")
                 continue
             f = re.fullmatch(r"&?self\.(\w+)", arg)
@@ -151,6 +154,8 @@ def type_schema(name, path, enums, codes):
                     wf.append([W_TYPES, 0, ""])
                 elif t and t.startswith("Nsec3Salt<"):
                     wf.append([W_SALT, 2, ""])      # a block of its own with a (dynamic) comment
+                elif t and t.startswith("IpseckeyGateway<"):
+                    wf.append([W_GATEWAY, 0, ""])   # resolved by the gateway type, see ipseckey_gateways
                 else:
                     raise GenError("%s: write_show of field type %r" % (name, t))
                 continue
@@ -193,12 +198,13 @@ def type_schema(name, path, enums, codes):
     i = src.find("->", scans[0].end())
     body = block_from(src, src.find("{", i))
     rk = []
+    body = body.replace("IpseckeyGateway::scan(scanner, gateway_type)", "IpseckeyGatewayByType::scan(scanner)")
     pat = r"(\w+)::scan\(scanner\)|scanner\.(scan_name|scan_charstr|scan_octets|scan_charstr_entry)\(\)|scanner\.convert_entry\(base(16|64)::SymbolConverter::new\(\)\)"
     for m in re.finditer(pat, body):
         if m.group(1):
             t = m.group(1)
             k = {"u8": R_U8, "u16": R_U16, "u32": R_U32, "Serial": R_U32, "Ttl": R_U32, "Timestamp": R_TIMESTAMP, "Rtype": R_RTYPE,
-                 "RtypeBitmap": R_TYPES, "Nsec3Salt": R_SALT, "OwnerHash": R_B32TOKEN, "CaaFlags": R_U8, "CaaTag": R_CSTR}.get(t)
+                 "IpseckeyGatewayByType": R_GATEWAY, "RtypeBitmap": R_TYPES, "Nsec3Salt": R_SALT, "OwnerHash": R_B32TOKEN, "CaaFlags": R_U8, "CaaTag": R_CSTR}.get(t)
             if k is None and t in enums:
                 k = R_ENUM8
             if k is None:
@@ -262,7 +268,37 @@ def schemas(codes):
     all_.sort()
     def fld(f):
         return "(%d%%N, (%d%%N, %s))" % (f[0], f[1], coq_str(f[2]))
-    return "[" + ";\n  ".join("(%d%%N, (%s, ([%s], %s)))" % (c, "true" if b else "false", "; ".join(fld(f) for f in wf), nlist(rk)) for c, b, wf, rk in all_) + "]"
+    def sch(x):
+        c, b, wf, rk = x
+        return "(%d%%N, (%s, ([%s], %s)))" % (c, "true" if b else "false", "; ".join(fld(f) for f in wf), nlist(rk))
+    # IPSECKEY: the gateway field's kind depends on the gateway type
+    ipk = type_schema("Ipseckey", "src/rdata/ipseckey.rs", enums, codes)
+    isrc = strip_comments(read("src/rdata/ipseckey.rs"))
+    one(r"let\s+precedence\s*=\s*u8::scan\(scanner\)\?;\s*let\s+gateway_type\s*=\s*u8::scan\(scanner\)\?\.into\(\);\s*let\s+algorithm\s*=\s*u8::scan\(scanner\)\?\.into\(\);\s*let\s+gateway\s*=\s*IpseckeyGateway::scan\(scanner,\s*gateway_type\)\?;", isrc, "Ipseckey::scan order")
+    one(r"if\s+key\.as_ref\(\)\.is_empty\(\)\s*&&\s*algorithm\s*!=\s*IpseckeyAlgorithm::NONE\s*\{\s*return\s+Err", isrc, "Ipseckey::scan key rule")
+    wbody = fn_body(isrc, "fmt", after="ZonefileFmt for IpseckeyGateway<N>")
+    rbody = fn_body(isrc, "scan", after="impl<N> IpseckeyGateway<N>") if "impl<N> IpseckeyGateway<N>" in isrc else None
+    if rbody is None:
+        m = one(r"pub fn scan<S: Scanner<Name = N>>\(\s*scanner: &mut S,\s*gateway_type: IpseckeyGatewayType,", isrc, "IpseckeyGateway::scan")
+        rbody = block_from(isrc, isrc.find("{", isrc.find("->", m.end())))
+    warm = {"None": (r'IpseckeyGateway::None\s*=>\s*p\.write_token\("\."\)\?', W_DOT),
+            "Ipv4": (r"IpseckeyGateway::Ipv4\(a\)\s*=>\s*p\.write_show\(a\)\?", W_IP4),
+            "Ipv6": (r"IpseckeyGateway::Ipv6\(aaaa\)\s*=>\s*p\.write_show\(aaaa\)\?", W_WORD),
+            "Name": (r"IpseckeyGateway::Name\(n\)\s*=>\s*p\.write_token\(n\.fmt_with_dot\(\)\)\?", W_NAME)}
+    rarm = {"None": (r'IpseckeyGatewayType::NONE\s*=>\s*\{\s*scanner\.scan_ascii_str\(\|s\|\s*\{\s*if\s+s\s*==\s*"\."\s*\{\s*Ok\(Self::None\)', R_DOT),
+            "Ipv4": (r"IpseckeyGatewayType::IPV4\s*=>\s*Self::Ipv4\(A::scan\(scanner\)\?\)", R_IP4),
+            "Ipv6": (r"IpseckeyGatewayType::IPV6\s*=>\s*Self::Ipv6\(Aaaa::scan\(scanner\)\?\)", R_OCTETS),
+            "Name": (r"IpseckeyGatewayType::NAME\s*=>\s*Self::Name\(scanner\.scan_name\(\)\?\)", R_NAME)}
+    gsrc = strip_comments(read("src/base/iana/ipseckey.rs"))
+    gws = []
+    for nm, const in (("None", "NONE"), ("Ipv4", "IPV4"), ("Ipv6", "IPV6"), ("Name", "NAME")):
+        one(warm[nm][0], wbody, "IpseckeyGateway fmt " + nm)
+        one(rarm[nm][0], rbody, "IpseckeyGateway scan " + nm)
+        m = one(r"IpseckeyGatewayType, u8;.*?\(%s\s*=>\s*(\d+)," % const, gsrc, "gateway type " + const)
+        gws.append("(%s%%N, (%d%%N, %d%%N))" % (m.group(1), warm[nm][1], rarm[nm][1]))
+    afmt = strip_comments(read("src/rdata/aaaa.rs"))
+    one(r"impl ZonefileFmt for Aaaa\s*\{\s*fn fmt[^{]*\{\s*p\.write_token\(self\.addr\)", afmt, "Aaaa ZonefileFmt")
+    return ("[" + ";\n  ".join(sch(x) for x in all_) + "]", sch(ipk), "[" + "; ".join(gws) + "]")
 
 def build():
     defs = []
@@ -445,7 +481,10 @@ def build():
     def table(xs):
         return "[" + "; ".join("(%d%%N, %s)" % (v, coq_str(s)) for v, s in xs) + "]"
     codes = dict((m, v) for v, m in rts)
-    defs.append(("type_schemas", "list (N * (bool * (list (N * (N * list N)) * list N)))", schemas(codes)))
+    ts, ipk, gws = schemas(codes)
+    defs.append(("type_schemas", "list (N * (bool * (list (N * (N * list N)) * list N)))", ts))
+    defs.append(("ipseckey_schema", "N * (bool * (list (N * (N * list N)) * list N))", ipk))
+    defs.append(("ipseckey_gateways", "list (N * (N * N))", gws))
     defs += [("rtype_mnemonics", "list (N * list N)", table(rts)), ("class_mnemonics", "list (N * list N)", table(cls)),
              ("rtype_prefix", "list N", coq_str("TYPE")), ("class_prefix", "list N", coq_str("CLASS"))]
     return defs
